@@ -74,3 +74,8 @@ LEVEL_TEXT = ("Proof: 13 Coq theorems (Properties/C15.v) state every clause of t
 LEVEL_NOTE = ("Trusted: Coq kernel; the transcription Model/Pts.v (checked by the correspondence, exhaustive on the threshold "
               "grid); extraction (ExtrOcamlBasic) and the executor glue; Go's uint64 semantics.")
 TECHNIQUE = "Coq proof (lia over N with explicit uint64 wrap) + model/implementation correspondence on threshold grid and random pairs"
+
+
+# coverage round (notes/coverage.md): cases and support theorems for exported identifiers outside the property text
+from gen import covlib
+covlib.install(globals())
